@@ -26,7 +26,7 @@ for f in sorted((VERIF / "harness" / "claims").glob("C*.json")):
     CLAIMS[f.stem] = (d["category"], d["text"], d["note"], d["technique"], d.get("design_ref", f"DESIGN.md §6 {f.stem}"))
 
 # only checks that have been integrated (pass on the unchanged tree, reviewed) are registered
-ENABLED = ["C01", "C02", "C03", "C04", "C05", "C06", "C07", "C08", "C09", "C10", "C11", "C12", "C13", "C14", "C15", "C16", "C19", "C20"]
+ENABLED = ["C01", "C02", "C03", "C04", "C05", "C06", "C07", "C08", "C09", "C10", "C11", "C12", "C13", "C14", "C15", "C16", "C17", "C18", "C19", "C20"]
 CLAIMS = {k: v for k, v in CLAIMS.items() if k in ENABLED}
 
 PENDING_REASON = "not built yet in this round (design in DESIGN.md §6); no claim is made for it until its check exists"
